@@ -4,7 +4,7 @@ V = os.path.dirname(os.path.dirname(os.path.abspath(__file__)))
 props = [json.loads(l)["id"] for l in open(os.path.join(V, "properties.jsonl"))]
 CHECKS = {
  "C01": dict(
-   text="PARTIAL (one step short).  Proved in Coq for all seven languages (Props/C01.v: C01_brace, C01_flat, C01_python; proofs "
+   text="PARTIAL (the lexers, and constructs outside the formal grammars).  Proved in Coq for all seven languages (Props/C01.v: C01_brace, C01_flat, C01_python; proofs "
         "Scope/SpecProofs*.v, HeaderProofs*.v, ShapeProofs*.v, PySpecProofs*.v): IF a code-token stream carries a well-formed "
         "family of function descriptors (wf_descs: Dyck-matched body braces; py_wf_descs: the suite is the maximal run of "
         "following lines indented deeper than the header's first token; descriptors sorted and nested-or-disjoint) AND the "
@@ -26,8 +26,14 @@ CHECKS = {
         "exposed the genuine defect GD26 (TypeScript: a call in a ternary inside a condition reported as a function).  The "
         "comparison operators of the hand model are proved equal to definitions regenerated from the source on every run "
         "(C01_operators_tied).  Python has its own grammar over positioned tokens (blocks of lines at one indentation, definition "
-        "line + deeper block) with theorem C01_grammar_python.  NOT proved: what the grammars leave out (brace groups inside parameter lists, multi-line Python "
-        "headers, backslash continuations: hypothesis form and generator only) and the text->token step (lexers are oracles).  4 200 generated programs per quick run (nesting in any position, multi-line "
+        "line + deeper block) with theorem C01_grammar_python.  The brace grammar also covers class-like declarations and brace-initialiser "
+        "statements; proving the latter refuted the theorem on `f ( ) { } { } ;` and exposed the genuine defect GD27 (a block that abuts a "
+        "function body was merged into it), after whose repair the hypothesis 'nothing opens right after the body' was deleted from every "
+        "theorem.  Membership in the grammars is DECIDED: executable recognisers (Scope/GrammarParse.v, PyGrammarParse.v) are proved sound "
+        "(C01_recognised_programs, C01_recognised_python_programs) and run inside Coq on the generated programs; about half are members, "
+        "for which no descriptor-side hypothesis is left.  NOT proved: what the grammars leave out (callbacks inside call arguments, brace "
+        "groups inside parameter lists, multi-line Python statements / headers, backslash continuations: hypothesis form and generator only) "
+        "and the text->token step (lexers are oracles).  4 200 generated programs per quick run (nesting in any position, multi-line "
         "headers, both brace styles, brace groups and calls in parameters, async, long throws / return types, strings with "
         "delimiters, marker-like comments, bodies around 15/30/60) are judged against expectations computed from the rendering, "
         "and the Coq model runs on the same token streams.",
@@ -35,7 +41,7 @@ CHECKS = {
         "inside parameter lists, multi-line Python headers and continuations (those are covered by the decidable-hypothesis theorems, "
         "validated per generated program); lexers are oracles.  Trusted: Coq kernel; scope model (tie H), captured "
         "patterns (tie K); generator harness/progen.py and its piece-ownership expectation.",
-   technique="Rocq end-to-end theorem (header recognition via the concrete DFAs, Dyck matching, pairing invariant, fold, counting; Python suites) under decidable lexical hypotheses checked in Coq per generated program + typed program generator with computed expectations",
+   technique="Rocq end-to-end theorem (header recognition via the concrete DFAs, Dyck matching, pairing invariant, fold, counting; Python suites) under decidable lexical hypotheses checked in Coq per generated program; formal grammars with unconditional theorems and sound recognisers run in Coq + typed program generator with computed expectations",
    ref="DESIGN.md sections 5 and 9, C01"),
 
  "C12": dict(
